@@ -659,7 +659,8 @@ def predict(case, B, index_of, label=None, inherit_dir=None):
                 attrs_p['fixed-size'] = M(str(int(ao['fixed-size'])))
             if 'zero-terminated' in ao:
                 z = ao['zero-terminated']
-                attrs_p['zero-terminated'] = ('ZT', z == '1') if z in ('0', '1') else U
+                # the value-less spelling (array zero-terminated) means true
+                attrs_p['zero-terminated'] = ('ZT', z != '0') if z in ('0', '1', None) else U
             elif 'length' in ao or 'fixed-size' in ao:
                 attrs_p['zero-terminated'] = ('ZT', False)
             else:
